@@ -286,6 +286,39 @@ func (s *Sim) Do(a *Action) *chain.TxResult {
 		a.OK = true
 		s.Last = s.C.Snap()
 		return &chain.TxResult{OK: true}
+	case "slash":
+		// what the evidence / slashing modules do in BeginBlock for a misbehaving validator: burn a
+		// fraction of its tokens (tokens then differ from delegator shares) and, optionally, jail it
+		pre := s.Last
+		ctx, write := s.C.Ctx().CacheContext()
+		pv, _, err := chain.Guard("Slash", func() {
+			cons := s.W.ConsAddr[a.Target]
+			v, found := s.W.App.StakingKeeper.GetValidatorByConsAddr(ctx, cons)
+			if !found {
+				panic("validator not found")
+			}
+			frac, _ := sdk.NewDecFromStr(a.Extra["fraction"])
+			s.W.App.StakingKeeper.Slash(ctx, cons, ctx.BlockHeight(), v.GetConsensusPower(sdk.DefaultPowerReduction), frac)
+			if a.Extra["jail"] == "1" && !v.IsJailed() {
+				s.W.App.StakingKeeper.Jail(ctx, cons)
+			}
+		})
+		if err != nil {
+			s.liveness(err)
+		}
+		if pv != "" {
+			a.OK, a.Err = false, "panic: "+short(pv)
+		} else {
+			write()
+			a.OK = true
+		}
+		post := s.C.Snap()
+		s.Last = post
+		res := &chain.TxResult{OK: a.OK}
+		for _, o := range s.Oracles {
+			o.AfterAction(s, a, pre, post, res)
+		}
+		return res
 	case "params":
 		s.W.App.NodeKeeper.SetParams(s.C.Ctx(), *a.Params)
 		a.OK = true
